@@ -33,6 +33,7 @@ def run(ctx):
     ctx.rule(dtype_out)
     ctx.rule(full_keeps_dtype)
     ctx.rule(chunk_dtype_fixed_point)
+    ctx.rule(no_module_state)
     ctx.rule(fft_pairing)
     ctx.rule(prep)
     ctx.rule(logfloor)
@@ -455,3 +456,19 @@ def energy_impulse(ctx, R="R-C03-energy-impulse"):
                         "coefficient 0 then integrates |x[t - (%s)]|^p, a shifted copy of the signal, instead of the energy of the frame the other "
                         "coefficients describe" % (style, diff, diff), "the energy impulse sits at the translation index")
     ctx.floor(R, n, 2)
+
+
+
+def no_module_state(ctx, R="R-C03-fresh-buffers"):
+    """The short-integration computer keeps its state on the instance: nothing it computes (filters in the frequency domain,
+    buffers) is stored in or fetched from class- or module-level objects, where another computer - another frame style, another
+    configuration - would find it."""
+    from .c20 import no_shared_state
+    prog = ctx.prog
+    c = _si(prog)
+    n = 0
+    for fi in prog.functions.values():
+        if fi.cls is c and fi.parent is None:
+            n += 1
+            no_shared_state(ctx, R, fi, "ShortIntegrationFrameComputer.%s" % fi.name, allow_self=True)
+    ctx.need(n >= 5, R, "methods of ShortIntegrationFrameComputer not found")
